@@ -3,7 +3,7 @@
      lingpy.read.qlc.read_qlc (dtype == 'msa') + _list2msa(header=False, ids=True)
      lingpy.align.sca.Alignments.add_alignments           (the state rebuilt from the columns)
    Strings are lists of code points.  Model only. *)
-From Coq Require Import ZArith List Bool.
+From Coq Require Import QArith ZArith List Bool.
 From LV Require Import Wordlist.SerializeStr Wordlist.SerializeNum Wordlist.Serialize.
 Import ListNotations.
 Local Open Scope Z_scope.
@@ -303,3 +303,57 @@ End Rebuild.
 Definition alignments_state (cols : list str) (ref : str) (taxa : list str) (cogids : list Z) (rows : list row)
   : list (Z * msa_read) :=
   rebuild cols (selc cols ref rows) taxa cogids.
+
+(* ------------------------------------------------------------------ *)
+(* the <dst> and <scorer> blocks inside the file (wl2qlc after the MSA sections; read_qlc) *)
+Definition s_dst : str := [100; 115; 116].
+Definition s_scorer : str := [115; 99; 111; 114; 101; 114].
+Definition s_dst_open : str := [60; 100; 115; 116; 62].                          (* <dst> *)
+Definition s_dst_close : str := [60; 47; 100; 115; 116; 62].                     (* </dst> *)
+Definition s_distances : str := [35; 32; 68; 73; 83; 84; 65; 78; 67; 69; 83].    (* # DISTANCES *)
+Definition s_scorer_hd : str := [35; 32; 83; 67; 79; 82; 69; 82].                (* # SCORER *)
+Definition s_scorer_close : str := [60; 47; 115; 99; 111; 114; 101; 114; 62].    (* </scorer> *)
+Definition s_basic : str := [98; 97; 115; 105; 99].
+
+(* an empty line, '# DISTANCES', '<dst>', matrix2dst(...), '</dst>' *)
+Definition dst_section (taxa : list str) (m : list (list Q)) : list str :=
+  [] :: s_distances :: s_dst_open :: dst_lines taxa m ++ [s_dst_close].
+(* per scorer: the tag with its id, scorer2str(...), '</scorer>', an empty line *)
+Definition scorer_tag (id : str) : str := 60 :: (s_scorer ++ 32 :: attr s_idk id) ++ [62].
+Definition scorer_block (e : str * list str * list (list Q)) : list str :=
+  scorer_tag (fst (fst e)) :: scorer_lines (snd (fst e)) (snd e) ++ [s_scorer_close; []].
+Definition scorer_section (l : list (str * list str * list (list Q))) : list str :=
+  match l with
+  | [] => []
+  | _ :: _ => [] :: s_scorer_hd :: concat (map scorer_block l)
+  end.
+
+(* meta['distances']: the last <dst> block; meta['scorer'][id] for every <scorer> block *)
+Fixpoint read_distances (blocks : list block) (last : option (list (list Q))) : res (option (list (list Q))) :=
+  match blocks with
+  | [] => Ok last
+  | b :: rest =>
+      if str_eqb (b_dtype b) s_dst then
+        match read_dst_block (b_body b) with
+        | Some m => read_distances rest (Some m)
+        | None => Err
+        end
+      else read_distances rest last
+  end.
+Fixpoint read_scorers (blocks : list block) : res (list (str * list (str * list Q))) :=
+  match blocks with
+  | [] => Ok []
+  | b :: rest =>
+      if str_eqb (b_dtype b) s_scorer then
+        match block_keys (b_head b), read_scorer_lines (b_body b), read_scorers rest with
+        | Some keys, Some t, Ok ts =>
+            Ok ((match assoc_last s_idk keys with Some i => i | None => s_basic end, t) :: ts)
+        | _, _, _ => Err
+        end
+      else read_scorers rest
+  end.
+
+(* the meta part of a file as wl2qlc orders it: MSA sections, distances, scorers *)
+Definition meta_part (l : list (str * list (Z * list str * msa))) (dst : option (list str * list (list Q)))
+                     (sc : list (str * list str * list (list Q))) : list str :=
+  msa_sections l ++ (match dst with Some (taxa, m) => dst_section taxa m | None => [] end) ++ scorer_section sc.
